@@ -28,14 +28,22 @@ META = dict(
          '(thorough) over the 12-symbol alphabet of the property, plus random grammar-derived expressions (<= 12 components, '
          'whitespace), single-character and structural mutations of them and random token sequences, with both the model and pybufrkit.dataquery.NodePathParser and '
          'compares outcome family, subset slice, component triples and the printout (NodePath.__str__ vs print) exactly; the oracle compares the implementation with the '
-         'executable grammar and checks the print/parse law on the implementation alone.',
+         'executable grammar and checks the print/parse law on the implementation alone. Source tie: the whole NodePathParser (all nine '
+         'methods, NodePath, PathComponent) is re-translated from the repository into Lean on every check (harness/py2lean.py, '
+         'Gen/PyDataquery.lean) and C15_src_parse_eq proves, for every object state, both values of bare_id_matches_all and every '
+         'input of SrcDomain (no "+", "_", non-ASCII digit, blank outside string.whitespace; at most 4300 digits), that the '
+         'translated parse returns exactly what the model parse returns (no IndexError / TypeError / ValueError, loop terminates); '
+         'outside SrcDomain code and model differ and the differences are stated (A[+1], A[1_0], non-ASCII digits and blanks, the '
+         '4300-digit limit of int()).',
     technique='Lean 4 theorems (state-machine invariants by induction on the input: whitespace erasure, token runs, slice bodies vs '
               'splitting on colons, component induction on fuel; decimal printing/parsing round trip) + exhaustive and random '
               'checked model/implementation correspondence + implementation-vs-grammar oracle',
     note="Python's int() is modelled as '-'? digit+ and whitespace as the six ASCII blanks of string.whitespace (the property's "
          "alphabet); '+1', '1_0', non-ASCII digits/blanks are outside the model. The grammar's open points (what an id is, first "
          "character in @/>0-9A-Z, no leading '.') follow the code and are listed in Spec/PathGrammar.lean. Theorems are stated over "
-         'List Char. The model is the parser after fix F2 (ee91e13).',
+         'List Char. The model is the parser after fix F2 (ee91e13). The source tie models int() in full (Py.intOfStr) and '
+         'assumes CPython >= 3.11 with the default int_max_str_digits = 4300, Unicode 15.0.0 tables (compared with the interpreter '
+         'on every run), assertions enabled, and the declared attribute types of NodePathParser / NodePath (notes/Tie.md).',
 )
 
 
@@ -320,11 +328,54 @@ def run(ctx):
         ctx.violation('correspondence model<->NodePathParser broken on %d strings although implementation and grammar agree; first %r'
                       % (len(ctx.corr_breaks), b['string']), {'correspondence': 'path', 'first': b},
                       signature={'kind': 'correspondence'}, no_failing_input=True)
-    ctx.assumptions = ["Python int() is modelled as '-'? digit+ (other int syntaxes are outside the property's alphabet)",
-                       'whitespace = the six ASCII blanks of string.whitespace']
+    check_prelude_tables()
+    ctx.assumptions = ["Python int() is modelled as '-'? digit+ in the hand-written model; the source tie (C15_src_parse_eq) uses "
+                       "Py.intOfStr (blanks, '+', underscores, Unicode decimal digits, the 4300-digit limit) and proves the two equal "
+                       "on SrcDomain (no '+', '_', non-ASCII digit, blank outside string.whitespace; at most 4300 digits); outside it "
+                       "code and model differ (examples in Props/C15Src.lean)",
+                       'whitespace = the six ASCII blanks of string.whitespace',
+                       'interpreter: sys.get_int_max_str_digits() = 4300, unicodedata %s (decimal-digit table and str.isspace '
+                       'table of Gen/PyPrelude.lean compared with the running interpreter on every check)' % _unidata_version()]
 
 
 def replay(ctx, path):
     body = json.load(open(path))
     ctx.corr_breaks = []
     check_strings(ctx, [body['replay']['string']], 'replay')
+
+
+def _unidata_version():
+    import unicodedata
+    return unicodedata.unidata_version
+
+
+def check_prelude_tables():
+    """The static tables of lean/BufrModel/Gen/PyPrelude.lean that `Py.intOfStr` / `Py.strip` rest on (trusted base of the
+    source tie) against the interpreter that runs pybufrkit in this check.  A difference is a machinery error (the
+    theorems would be about another interpreter), not a violation of the property."""
+    import re
+    import string as _string
+    import sys
+    import unicodedata
+    from harness import core
+    text = open(os.path.join(core.VERIF, 'lean', 'BufrModel', 'Gen', 'PyPrelude.lean')).read()
+    m = re.search(r'def decimalZeros : List Nat :=\s*\[([^\]]*)\]', text)
+    table = [int(x, 16) for x in re.findall(r'0x[0-9a-fA-F]+', m.group(1))]
+    dec = [c for c in range(0x110000) if unicodedata.decimal(chr(c), None) is not None]
+    zeros = []
+    for i in range(0, len(dec), 10):
+        blk = dec[i:i + 10]
+        if blk != list(range(blk[0], blk[0] + 10)) or [unicodedata.decimal(chr(x)) for x in blk] != list(range(10)):
+            raise RuntimeError('PyPrelude: the decimal digits of this interpreter are not blocks of ten')
+        zeros.append(blk[0])
+    if zeros[0] != 0x30 or zeros[1:] != table:
+        raise RuntimeError('PyPrelude.decimalZeros differs from unicodedata %s of this interpreter' % unicodedata.unidata_version)
+    spaces = [c for c in range(0x110000) if chr(c).isspace()]
+    want = (list(range(9, 14)) + list(range(28, 33)) + [0x85, 0xa0, 0x1680] + list(range(0x2000, 0x200b))
+            + [0x2028, 0x2029, 0x202f, 0x205f, 0x3000])
+    if spaces != want:
+        raise RuntimeError('PyPrelude.isSpaceChar differs from str.isspace of this interpreter')
+    if _string.whitespace != ' \t\n\r\x0b\x0c':
+        raise RuntimeError('string.whitespace of this interpreter is not the six ASCII blanks')
+    if getattr(sys, 'get_int_max_str_digits', lambda: 0)() != 4300:
+        raise RuntimeError('sys.get_int_max_str_digits() is not 4300 (PyPrelude.intMaxStrDigits)')
